@@ -25,6 +25,14 @@ TLE = """ISS (ZARYA)
 2 25544  51.6421 236.2139 0003381  47.8509  47.6767 15.54198229111731"""
 L = np.tril(np.arange(1.0, 37.0).reshape(6, 6) * 0.37 + 2.0)
 COV = (L @ L.T) * np.outer([10, 10, 10, 0.01, 0.01, 0.01], [10, 10, 10, 0.01, 0.01, 0.01])
+# frames about other centres than the Earth: the bodies of the planetary kernel shipped with the repository's tests (a message names
+# its centre in CENTER_NAME and the reader maps it to the frame of that name)
+import beyond as _beyond  # noqa: E402
+from pathlib import Path  # noqa: E402
+_jd = Path(_beyond.__file__).resolve().parent.parent / "tests" / "data" / "jpl"
+config.set("env", "jpl", "files", [str(_jd / "de403_2000-2020.bsp"), str(_jd / "pck00010.tpc"), str(_jd / "gm_de431.tpc")])
+from beyond.env import jpl as _jpl  # noqa: E402
+_jpl.create_frames()
 station = create_station("VfCcsds", (43.604482, 1.443962, 172.0))
 station2 = create_station("VfCcsds2", (5.25, -52.8, 15.0))
 
